@@ -534,6 +534,34 @@ func (p *Program) stateSliceSource(v ssa.Value, depth int, seen map[string]bool)
 			if ok, what := p.stateSliceSource(x.X, depth+1, seen); ok {
 				return true, what + "[…]"
 			}
+		case *ssa.Parameter:
+			fn := x.Parent()
+			idx := -1
+			for i, fp := range fn.Params {
+				if fp == x {
+					idx = i
+				}
+			}
+			k := fmt.Sprintf("par:%p/%d", fn, idx)
+			if idx < 0 || seen[k] {
+				continue
+			}
+			seen[k] = true
+			found, what := false, ""
+			for _, g := range p.ModuleFuncs() {
+				eachInstr(g, func(in ssa.Instruction) {
+					c, ok := in.(ssa.CallInstruction)
+					if !ok || found || c.Common().IsInvoke() || c.Common().StaticCallee() != fn || idx >= len(c.Common().Args) {
+						return
+					}
+					if ok, w := p.stateSliceSource(c.Common().Args[idx], depth+1, seen); ok {
+						found, what = true, w+" (passed to "+shortFunc(fn)+" by "+shortFunc(g)+")"
+					}
+				})
+			}
+			if found {
+				return true, what
+			}
 		case *ssa.Call, *ssa.Extract:
 			var call *ssa.Call
 			idx := 0
@@ -588,7 +616,27 @@ func ruleStateSliceAppend(r *Run) {
 				return
 			}
 			b, ok := c.Call.Value.(*ssa.Builtin)
-			if !ok || b.Name() != "append" || len(c.Call.Args) < 1 {
+			isAppend := ok && b.Name() == "append" && len(c.Call.Args) >= 1
+			if !isAppend {
+				// library functions that edit their slice argument in place
+				cn := calleeName(c)
+				if i := strings.Index(cn, "["); i > 0 {
+					cn = cn[:i]
+				}
+				switch cn {
+				case "slices.Delete", "slices.DeleteFunc", "slices.Insert", "slices.Reverse", "slices.Sort", "slices.SortFunc", "slices.SortStableFunc",
+					"slices.Compact", "slices.CompactFunc", "slices.Replace", "sort.Slice", "sort.SliceStable", "sort.Strings", "sort.Ints", "builtin.copy", "builtin.clear":
+				default:
+					return
+				}
+				if len(c.Call.Args) < 1 {
+					return
+				}
+				if ok, what := p.stateSliceSource(c.Call.Args[0], 0, map[string]bool{}); ok {
+					bad++
+					site[fn]++
+					r.bad(fmt.Sprintf("%s/edits-state-slice#%d", shortFunc(fn), site[fn]), in.Pos(), "request code hands a slice that comes out of the routing state or the mux options (%s) to %s, which edits it in place: the published snapshot / the shared options change under concurrent requests, and later requests see the edited list", what, shortName(cn))
+				}
 				return
 			}
 			n++
@@ -2052,5 +2100,351 @@ func ruleDispatchPrefixOrder(r *Run) {
 	}
 	if n == 0 {
 		r.undecided("(*Mux).ServeHTTP/prefix-order", fn.Pos(), "no pair of nested content-type prefixes tested in ServeHTTP")
+	}
+}
+
+// ---------------------------------------------------------------------------------------------------------------
+// round 10
+
+func init() {
+	register(&Rule{Name: "PARAM-STABLE-ORDER", Floor: 0,
+		Doc: "the parameter list is applied in the order it was composed (last writer wins, repeated values in the order given): it is never sorted with an unstable sort (sort.Slice / sort.Sort / slices.SortFunc): beyond 12 elements pdqsort permutes equal elements - repeated query values arrive permuted and a query value can end up after the path value of the same field",
+		Run: ruleParamStableOrder})
+	register(&Rule{Name: "VARINT-PREFIX", Floor: 1,
+		Doc: "the length prefix CodecProto.WriteNext writes is a varint: it comes from protowire.AppendVarint / binary.PutUvarint, or is a single byte made from the length only where the length is known to be below 128 (a 128-byte message framed with the single byte 0x80 reads as the first byte of a longer varint)",
+		Run: ruleVarintPrefix})
+	register(&Rule{Name: "CONST-INDEX", Floor: 0,
+		Doc: "on request paths a string is indexed with a constant k only where its length is known to exceed k (a dominating len test with the right constant: `len(s) < k` before `s[k]` is off by one)",
+		Run: ruleConstIndex})
+	register(&Rule{Name: "DEFAULT-SCALAR-ONLY", Floor: 0,
+		Doc: "protoreflect's FieldDescriptor.Default() yields an invalid Value for repeated and message-typed fields; on request paths it is called only where the field is known to be a singular scalar",
+		Run: ruleDefaultScalarOnly})
+	register(&Rule{Name: "MUX-SIDE-STATE", Floor: 0,
+		Doc: "registration state lives in the copy-on-write snapshot only: a writer that also records something in a container held by the Mux itself (a sync.Map of claimed names, …) before a step that can fail leaves that record behind when the registration is rejected - 'a failed registration changes nothing' no longer holds and the retry is refused",
+		Run: ruleMuxSideState})
+}
+
+func isParamsType(t types.Type) bool {
+	if nm, ok := t.(*types.Named); ok && nm.Obj().Name() == "params" && nm.Obj().Pkg() != nil && nm.Obj().Pkg().Path() == larkPath {
+		return true
+	}
+	if sl, ok := t.Underlying().(*types.Slice); ok {
+		if nm, ok := sl.Elem().(*types.Named); ok && nm.Obj().Name() == "param" && nm.Obj().Pkg() != nil && nm.Obj().Pkg().Path() == larkPath {
+			return true
+		}
+	}
+	return false
+}
+
+func ruleParamStableOrder(r *Run) {
+	p := r.P
+	bad := 0
+	for _, fn := range p.ModuleFuncs() {
+		fn := fn
+		eachInstr(fn, func(in ssa.Instruction) {
+			c, ok := in.(ssa.CallInstruction)
+			if !ok || len(c.Common().Args) == 0 {
+				return
+			}
+			cn := calleeName(c)
+			if i := strings.Index(cn, "["); i > 0 {
+				cn = cn[:i]
+			}
+			switch cn {
+			case "sort.Slice", "sort.Sort", "slices.SortFunc", "slices.Sort":
+			default:
+				return
+			}
+			arg := c.Common().Args[0]
+			t := arg.Type()
+			if mi, ok := arg.(*ssa.MakeInterface); ok {
+				t = mi.X.Type()
+			}
+			if !isParamsType(t) {
+				return
+			}
+			bad++
+			r.bad(fmt.Sprintf("%s/unstable-sort#%d", shortFunc(fn), bad), in.Pos(), "the request's parameter list is sorted with %s, which is not stable: parameters of the same field lose their relative order once the list is longer than 12 entries (repeated values arrive permuted; a query value can be applied after the path value)", shortName(cn))
+		})
+	}
+	if bad == 0 {
+		r.ok("module/params-order", token.NoPos, "the parameter list is never sorted with an unstable sort")
+	}
+}
+
+func ruleVarintPrefix(r *Run) {
+	p := r.P
+	fn := p.Method("CodecProto", "WriteNext")
+	if fn == nil {
+		r.missing("method (CodecProto).WriteNext")
+		return
+	}
+	key := shortFunc(fn)
+	n, bad := 0, 0
+	p.eachInstrRegion(fn, func(g *ssa.Function, in ssa.Instruction) {
+		switch x := in.(type) {
+		case *ssa.Call:
+			switch calleeName(x) {
+			case "google.golang.org/protobuf/encoding/protowire.AppendVarint", "encoding/binary.PutUvarint", "encoding/binary.AppendUvarint":
+				n++
+			}
+		case *ssa.Convert:
+			bt, ok := x.Type().Underlying().(*types.Basic)
+			if !ok || bt.Kind() != types.Uint8 {
+				return
+			}
+			var lenv ssa.Value
+			for _, o := range p.origins(x.X, originOpts{local: true, throughConvert: true}) {
+				if c, ok := o.(*ssa.Call); ok && calleeName(c) == "builtin.len" {
+					lenv = o
+				}
+			}
+			if lenv == nil {
+				return
+			}
+			n++
+			small := false
+			for _, gf := range guardsOf(x.Block()) {
+				xv, yv, op, ok := gf.cmp()
+				if !ok {
+					continue
+				}
+				k, isC := constInt(yv)
+				if !isC || !(p.stripConvAll(xv) == lenv || p.sameExpr(p.stripConvAll(xv), lenv, 0)) {
+					continue
+				}
+				if (op == token.LSS && k <= 128) || (op == token.LEQ && k <= 127) {
+					small = true
+				}
+			}
+			if !small {
+				bad++
+				r.bad(fmt.Sprintf("%s/single-byte-prefix#%d", key, bad), x.Pos(), "a length is written as a single prefix byte without being known to be below 128: for a message of exactly 128 bytes the byte is 0x80, which a varint reader takes for the first byte of a longer length - that message and everything after it on the stream no longer frame")
+			}
+		}
+	})
+	if n == 0 {
+		r.undecided(key+"/prefix", fn.Pos(), "no varint encoder call found in WriteNext")
+	} else if bad == 0 {
+		r.ok(key+"/prefix", fn.Pos(), "the length prefix is a varint (%d encoder calls / guarded single-byte prefixes)", n)
+	}
+}
+
+func ruleConstIndex(r *Run) {
+	p := r.P
+	n, bad := 0, 0
+	for _, fn := range sortedFuncs(p.reachRequest()) {
+		fn := fn
+		eachInstr(fn, func(in ssa.Instruction) {
+			// go/ssa spells s[i] on a string as Index (Lookup in older versions)
+			type strIndex struct {
+				X, Index ssa.Value
+				blk      *ssa.BasicBlock
+			}
+			var lk strIndex
+			switch x := in.(type) {
+			case *ssa.Index:
+				lk = strIndex{x.X, x.Index, x.Block()}
+			case *ssa.Lookup:
+				lk = strIndex{x.X, x.Index, x.Block()}
+			default:
+				return
+			}
+			bt, ok := lk.X.Type().Underlying().(*types.Basic)
+			if !ok || bt.Info()&types.IsString == 0 {
+				return
+			}
+			k, isC := constInt(lk.Index)
+			if !isC {
+				// a counter that starts at a constant and only goes down (for n := K; …; n--): its largest value is K
+				phi, ok := lk.Index.(*ssa.Phi)
+				if !ok {
+					return
+				}
+				ub, have := int64(-1), true
+				for _, e := range phi.Edges {
+					if c, ok := constInt(e); ok {
+						if c > ub {
+							ub = c
+						}
+						continue
+					}
+					bo, ok := e.(*ssa.BinOp)
+					if ok && bo.Op == token.SUB && bo.X == ssa.Value(phi) {
+						if c, ok := constInt(bo.Y); ok && c >= 0 {
+							continue
+						}
+					}
+					have = false
+				}
+				if !have || ub < 0 {
+					return
+				}
+				k = ub
+			}
+			if cs, ok := lk.X.(*ssa.Const); ok && cs.Value != nil {
+				return
+			}
+			n++
+			enough := false
+			isLenOf := func(v ssa.Value) bool {
+				c, ok := p.stripConvAll(v).(*ssa.Call)
+				return ok && calleeName(c) == "builtin.len" && (c.Call.Args[0] == lk.X || p.sameValue(c.Call.Args[0], lk.X) || p.sameExpr(c.Call.Args[0], lk.X, 0))
+			}
+			established := p.guardedInEveryContext(lk.blk, func(gf guardFact) bool {
+				xv, yv, op, ok := gf.cmp()
+				if !ok {
+					return false
+				}
+				if c, isK := constInt(yv); isK && isLenOf(xv) {
+					switch op {
+					case token.GTR:
+						return c >= k
+					case token.GEQ:
+						return c >= k+1
+					case token.NEQ:
+						return c == 0 && k == 0
+					case token.EQL:
+						return c >= k+1
+					}
+				}
+				// s != "" / HasPrefix(s, lit)
+				if cs, isS := constString(yv); isS && (xv == lk.X || p.sameValue(xv, lk.X)) {
+					if op == token.NEQ && cs == "" && k == 0 {
+						return true
+					}
+					if op == token.EQL && int64(len(cs)) >= k+1 {
+						return true
+					}
+				}
+				if hc, isCall := gf.Cond.(*ssa.Call); isCall && gf.True && calleeName(hc) == "strings.HasPrefix" && (hc.Call.Args[0] == lk.X || p.sameValue(hc.Call.Args[0], lk.X)) {
+					if lit, ok := constString(hc.Call.Args[1]); ok && int64(len(lit)) >= k+1 {
+						return true
+					}
+				}
+				return false
+			})
+			enough = established
+			if !enough {
+				bad++
+				r.bad(fmt.Sprintf("%s/string-index[%d]#%d", shortFunc(fn), k, bad), in.Pos(), "the string is indexed with the constant %d on a path on which its length is not known to exceed %d (a `len(s) < %d` guard lets a string of exactly %d bytes through): index out of range inside the request", k, k, k, k)
+			}
+		})
+	}
+	if bad == 0 {
+		r.ok("request paths/string-const-index", token.NoPos, "%d constant indexes into strings on request paths, each behind a sufficient length test", n)
+	}
+}
+
+func ruleDefaultScalarOnly(r *Run) {
+	p := r.P
+	n, bad := 0, 0
+	for _, fn := range sortedFuncs(p.reachRequest()) {
+		fn := fn
+		eachInstr(fn, func(in ssa.Instruction) {
+			c, ok := in.(*ssa.Call)
+			if !ok || !c.Call.IsInvoke() || c.Call.Method.Name() != "Default" || c.Call.Method.Pkg() == nil || !strings.HasSuffix(c.Call.Method.Pkg().Path(), "protoreflect") {
+				return
+			}
+			n++
+			fd := c.Call.Value
+			// the field is known singular and not a message: IsList / IsMap false and Message() == nil / Kind tested
+			notList, notMsg := false, false
+			for _, gf := range guardsOf(c.Block()) {
+				if hc, isCall := gf.Cond.(*ssa.Call); isCall && hc.Call.IsInvoke() && (hc.Call.Value == fd || p.sameValue(hc.Call.Value, fd)) {
+					switch hc.Call.Method.Name() {
+					case "IsList":
+						if !gf.True {
+							notList = true
+						}
+					}
+				}
+				xv, yv, op, ok := gf.cmp()
+				if !ok {
+					continue
+				}
+				if mc, isCall := xv.(*ssa.Call); isCall && mc.Call.IsInvoke() && (mc.Call.Value == fd || p.sameValue(mc.Call.Value, fd)) {
+					if mc.Call.Method.Name() == "Message" && isNilConst(yv) && op == token.EQL {
+						notMsg = true
+					}
+					if mc.Call.Method.Name() == "Cardinality" && op == token.NEQ {
+						notList = true
+					}
+				}
+			}
+			if !(notList && notMsg) {
+				bad++
+				r.bad(fmt.Sprintf("%s/default-of-any-field#%d", shortFunc(fn), bad), in.Pos(), "FieldDescriptor.Default() is used for a field that is not known to be a singular scalar: for repeated and message-typed fields it is an invalid Value, and List.Append / Message.Set panic on it later in the request (`?int32_list=`)")
+			}
+		})
+	}
+	if bad == 0 {
+		r.ok("request paths/field-defaults", token.NoPos, "%d uses of FieldDescriptor.Default() on request paths, each for a known singular scalar", n)
+	}
+}
+
+func ruleMuxSideState(r *Run) {
+	p := r.P
+	mux := p.NamedType("Mux")
+	if mux == nil {
+		r.missing("type Mux")
+		return
+	}
+	n, bad := 0, 0
+	for _, fn := range sortedFuncs(p.reachRegistration()) {
+		fn := fn
+		eachInstr(fn, func(in ssa.Instruction) {
+			c, ok := in.(ssa.CallInstruction)
+			if !ok || c.Common().IsInvoke() {
+				return
+			}
+			cn := calleeName(c)
+			if !strings.HasPrefix(cn, "(*sync.Map).") {
+				return
+			}
+			switch strings.TrimPrefix(cn, "(*sync.Map).") {
+			case "Store", "LoadOrStore", "LoadAndDelete", "Delete", "Swap", "CompareAndSwap", "CompareAndDelete", "Clear":
+			default:
+				return
+			}
+			onMux := false
+			for _, o := range p.origins(c.Common().Args[0], originOpts{local: true}) {
+				if fa, ok := o.(*ssa.FieldAddr); ok {
+					if nm := namedOf(fa.X.Type()); nm != nil && nm.Obj() == mux.Obj() {
+						onMux = true
+					}
+				}
+			}
+			if fa, ok := c.Common().Args[0].(*ssa.FieldAddr); ok {
+				if nm := namedOf(fa.X.Type()); nm != nil && nm.Obj() == mux.Obj() {
+					onMux = true
+				}
+			}
+			// a package-level registry is the same thing with a wider scope
+			if g, ok := c.Common().Args[0].(*ssa.Global); ok && g.Pkg != nil && g.Pkg.Pkg.Path() == larkPath {
+				onMux = true
+			}
+			if !onMux {
+				return
+			}
+			n++
+			ei := errResultIndex(fn)
+			fails := false
+			if ei >= 0 {
+				if w, _ := (pathQuery{fn: fn, start: in, target: func(x ssa.Instruction) bool {
+					rt, ok := x.(*ssa.Return)
+					return ok && ei < len(rt.Results) && !isNilConst(rt.Results[ei])
+				}}).find(); w != nil {
+					fails = true
+				}
+			}
+			if fails {
+				bad++
+				r.bad(fmt.Sprintf("%s/side-state-before-failure#%d", shortFunc(fn), bad), in.Pos(), "%s records registration state in a container of the Mux itself (%s), outside the copy-on-write snapshot, and can still fail afterwards: the snapshot of a rejected registration is discarded but this record stays - the registration left a trace, and a retry meets it", shortFunc(fn), shortName(cn))
+			}
+		})
+	}
+	if bad == 0 {
+		r.ok("registration/side-state", token.NoPos, "no registration step records state in a Mux-held container before a step that can fail (%d such writes)", n)
 	}
 }
